@@ -168,3 +168,7 @@ def run(ctx):
     PANOC.attach(ctx, extra_oracle=on_run)
     ZEROFPR.attach(ctx, extra_oracle=on_run)
     PANTR.attach(ctx, extra_oracle=on_run)
+    # FISTA and PANOC-OCP: whole-loop models with their own stop-injection generators (stop scans inside line searches / backtracking)
+    from vf.props import FISTA, PANOCOCP
+    FISTA.attach(ctx, scale=0.25)
+    PANOCOCP.attach(ctx, scale=0.25)
